@@ -167,6 +167,15 @@ static void run_invariance(uint64_t idx) {
   ld cmax = 1; for (auto v : S.c) cmax = std::max(cmax, fabsl(v)); ld tol = 2 * (8 * 1.2e-7L + 200 * S.kappa * 2.3e-16L) * cmax;
   H->count("invariance_checks");
   for (size_t i = 0; i < base.size(); i++) if (fabsl((ld)base[i] - other[i]) > tol) { H->violation("zero-weight-or-listing-order-influences-fit", where + vf::fmt(" coefficient %zu: %.9g vs %.9g", i, (double)base[i], (double)other[i])); break; }
+  // the minimiser does not change when all weights and smoothing strengths are multiplied by one positive factor (weights are
+  // 1/sigma^2 in whatever units the user measures in): the same problem at four other overall scales
+  for (double scale : {1e-18, 1e-9, 1e9, 1e15}) {
+    fitref::Problem R = P; for (auto& w : R.w) w *= scale; for (auto& l : R.smooth) l *= scale;
+    std::vector<float> sc = fit_and_check(R, 1, "invariance", where + vf::fmt(" weights-and-smoothing x %g", scale), false);
+    if (sc.size() != base.size()) { H->violation("fit-fails-when-weights-are-rescaled", where + vf::fmt(" scale %g", scale)); continue; }
+    H->count("invariance_checks");
+    for (size_t i = 0; i < base.size(); i++) if (!(fabsl((ld)base[i] - sc[i]) <= tol)) { H->violation("overall-weight-scale-influences-fit", where + vf::fmt(" scale %g coefficient %zu: %.9g vs %.9g", scale, i, (double)base[i], (double)sc[i])); break; }
+  }
   H->cls(where);
 }
 
